@@ -66,7 +66,12 @@ func (gsd *Demux) Run() {
 		}
 		gsd.conns.Unlock()
 
-		conn.r <- rpc
+		select {
+		case conn.r <- rpc:
+		case <-gsd.ctx.Done():
+			// stopped while nobody reads this logical connection
+			return
+		}
 	}
 }
 
